@@ -31,12 +31,28 @@ def expr(m, w):
     return "%s%+d" % (m, w)
 
 
-def scenario(sid, case, gate=None, timeout="5s", gap_ms=0):
+# how a hook TASK can end (C09: error, non-zero exit, involuntary termination, timeout); "ok" = exit 0, voluntary
+TASK_ENDS = {"ok": {"hook_exit": 0, "hook_voluntary": True}, "exit1": {"hook_exit": 1, "hook_voluntary": True},
+             "signal": {"hook_exit": -1, "hook_voluntary": True}, "killed": {"hook_exit": 0, "hook_voluntary": False},
+             "exit3killed": {"hook_exit": 3, "hook_voluntary": False}, "silent": {"hook_silent": True}}
+
+
+def scenario(sid, case, gate=None, timeout="5s", gap_ms=0, pad=False, taskhook=None):
+    """pad: weights spelled with leading zeros (+005); taskhook = (end_if_fails, end_if_ok): hook h1 is a hook TASK, not a call."""
     cls = "ehs%dt1" % sid
     roles = cs.role_task("t1", cls)
     hooks = {}
+    files_extra, scripts = {}, []
+    ex = (lambda m, w: "%s%+04d" % (m, w)) if pad else expr
     for h in sorted(case["hooks"], key=lambda x: x["id"]):
-        roles += cs.role_call(h["id"], h["id"], expr(h["tm"], h["tw"]), expr(h["am"], h["aw"]), critical=h["crit"], timeout=timeout)
+        if taskhook and h["id"] == "h1":
+            hcls = "ehs%dh1" % sid
+            files_extra["tasks/%s.yaml" % hcls] = cs.task_class(hcls, mode="hook")
+            roles += cs.role_task("h1", hcls, critical=h["crit"], trigger=ex(h["tm"], h["tw"]), await_=ex(h["am"], h["aw"]),
+                                  timeout="1s" if taskhook[0] == "silent" else timeout)
+            scripts.append(dict({"class": hcls}, **TASK_ENDS[taskhook[0] if h["fails"] else taskhook[1]]))
+            continue
+        roles += cs.role_call(h["id"], h["id"], ex(h["tm"], h["tw"]), ex(h["am"], h["aw"]), critical=h["crit"], timeout=timeout)
         b = {"outcome": "fail" if h["fails"] else "ok"}
         if gate == h["id"]:
             b["gate"] = "G"
@@ -56,10 +72,12 @@ def scenario(sid, case, gate=None, timeout="5s", gap_ms=0):
             steps.append({"do": "sleep", "ms": gap_ms})   # lets a declared call timeout elapse before the next request
     steps += [{"do": "destroy", "env": "e1", "force": True}, {"do": "settle", "ms": 20}]
     model = {"hooks": sorted(case["hooks"], key=lambda x: x["id"]), "plan": case["plan"], "bodyfails": case["bodyfails"],
-             "pred": case["pred"], "gate": gate or ""}
-    return {"id": sid, "family": "EnvHooks" + ("-gated" if gate else "") + ("-slow" if gap_ms else ""), "agents": cs.DEFAULT_AGENTS,
-            "files": {"tasks/%s.yaml" % cls: cs.task_class(cls), "workflows/%s.yaml" % wf: cs.workflow(wf, roles)},
-            "core": {}, "scripts": [], "hooks": hooks, "steps": steps, "model": model}
+             "pred": case["pred"], "gate": gate or "", "pad": pad, "taskhook": list(taskhook) if taskhook else []}
+    files = {"tasks/%s.yaml" % cls: cs.task_class(cls), "workflows/%s.yaml" % wf: cs.workflow(wf, roles)}
+    files.update(files_extra)
+    fam = "EnvHooks" + ("-gated" if gate else "") + ("-slow" if gap_ms else "") + ("-padded" if pad else "") + ("-taskhook" if taskhook else "")
+    return {"id": sid, "family": fam, "agents": cs.DEFAULT_AGENTS, "files": files,
+            "core": {}, "scripts": scripts, "hooks": hooks, "steps": steps, "model": model}
 
 
 def project(lines):
@@ -87,7 +105,7 @@ def project(lines):
                 out.append({"ev": "Acq" if ln["point"].endswith("acquired") else "Rel", "scn": scn, "what": ln["what"], "st": ln["st"]})
             elif ev == "Hook" and ln.get("point") in ("env.hooks.start", "env.hooks.awaited") and ln.get("env") == "e1":
                 out.append({"ev": "HStart" if ln["point"].endswith("start") else "HAwaited", "scn": scn, "m": ln["trigger"], "w": ln["weight"],
-                            "calls": [c.rsplit(".", 1)[-1] for c in ln["calls"]], "errors": ln.get("errors", 0)})
+                            "kind": "calls", "calls": [c.rsplit(".", 1)[-1] for c in ln["calls"]], "errors": ln.get("errors", 0)})
             elif ev == "EnvEv" and ln.get("env") == "e1" and ln["msg"] in ("transition step starting", "transition step finished"):
                 step = ln["step"]
                 k = step.split("_", 1)[0]
@@ -100,6 +118,14 @@ def project(lines):
                 out.append({"ev": "HS", "scn": scn, "hook": ln["hook"], "m": mt.group(1), "w": int(mt.group(2) or 0),
                             "rn": int(ln["rn"]) if ln.get("rn") else 0, "sosor": g("sosor"), "eosor": g("eosor"), "soeor": g("soeor"),
                             "eoeor": g("eoeor")})
+            elif ev == "Hook" and ln.get("point") in ("env.hooks.tasks.start", "env.hooks.tasks.done") and ln.get("env") == "e1":
+                # the task hooks of a (trigger, weight) step: same vocabulary as the calls started / awaited there
+                out.append({"ev": "HStart" if ln["point"].endswith("start") else "HAwaited", "scn": scn, "m": ln["trigger"], "w": ln["weight"],
+                            "kind": "tasks", "calls": [c.rsplit(".", 1)[-1] for c in ln["tasks"]], "errors": ln.get("errors", 0)})
+            elif ev == "MHookDone" and ln.get("env") == "e1" and re.search(r"h[0-9]+$", ln.get("class", "")):
+                # how the hook task ended, judged as the property words it: exit 0 and voluntary, else a failure
+                out.append({"ev": "HE", "scn": scn, "hook": re.search(r"(h[0-9]+)$", ln["class"]).group(1),
+                            "ok": ln["exit"] == 0 and bool(ln["voluntary"])})
             elif ev == "HookEnd" and ln.get("env") == "e1":
                 out.append({"ev": "HE", "scn": scn, "hook": ln["hook"], "ok": ln["ok"]})
             elif ev == "MMessage" and ln.get("env") == "e1":
@@ -164,6 +190,16 @@ def run_family(ctx, pid):
             seen_pts.add(key)
             single.append(c)
     rest = [c for c in rest if c not in single]
+    # the same points with a hook that does not fail (for the task-hook family: a hook task that ends well)
+    single_ok, seen_ok = [], set()
+    for c in cases:
+        h1 = next(h for h in c["hooks"] if h["id"] == "h1")
+        h2 = next(h for h in c["hooks"] if h["id"] == "h2")
+        key = (h1["tm"], h1["tw"], h1["crit"])
+        if (not h1["fails"] and not h2["fails"] and (h1["tm"], h1["tw"]) == (h1["am"], h1["aw"]) and not c["bodyfails"]
+                and c["plan"] == ["START_ACTIVITY", "STOP_ACTIVITY"] and key not in seen_ok):
+            seen_ok.add(key)
+            single_ok.append(c)
     plain = rest[:(70 if quick else 600)] + single + failstop[:(60 if quick else 600)] + meet
     # calls whose await point is reached long after their declared timeout
     slow = [c for c in rest if any(h["id"] == "h1" and h["tm"].endswith("START_ACTIVITY") and h["am"] == "after_STOP_ACTIVITY" for h in c["hooks"])
@@ -177,6 +213,26 @@ def run_family(ctx, pid):
     for c in plain:
         sid += 1
         scenarios.append(scenario(sid, c))
+    # weights spelled with leading zeros mean the same
+    padded = single + meet[:(12 if quick else 80)]
+    for c in padded:
+        sid += 1
+        scenarios.append(scenario(sid, c, pad=True))
+    # hook h1 as a hook TASK, with every way a task can end badly (and the good end)
+    ntask = 0
+    for c in single:
+        for end in (["exit1", "signal", "killed"] if quick else ["exit1", "signal", "killed", "exit3killed"]):
+            sid += 1
+            ntask += 1
+            scenarios.append(scenario(sid, c, taskhook=(end, "ok")))
+    for c in single_ok:
+        sid += 1
+        ntask += 1
+        scenarios.append(scenario(sid, c, taskhook=("exit1", "ok")))
+    for c in [x for x in single if next(h for h in x["hooks"] if h["id"] == "h1")["tm"] in ("before_START_ACTIVITY", "enter_RUNNING")][:(2 if quick else 6)]:
+        sid += 1
+        ntask += 1
+        scenarios.append(scenario(sid, c, taskhook=("silent", "ok")))
     for c in gated:
         sid += 1
         scenarios.append(scenario(sid, c, gate="h1"))
@@ -187,7 +243,7 @@ def run_family(ctx, pid):
     for s in scenarios:
         ctx.count_case(json.dumps(s["model"], sort_keys=True), nontrivial=True)
     ctx.exhaustive = False
-    ctx.log("cases from TLC: %d; scenarios: %d plain + %d gated + %d slow" % (len(cases), len(plain), len(gated), len(slow)))
+    ctx.log("cases from TLC: %d; scenarios: %d plain + %d gated + %d slow + %d padded + %d task-hook" % (len(cases), len(plain), len(gated), len(slow), len(padded), ntask))
     # 3. run on the real core, 4. validate
     judge(ctx, pid, scenarios, cs.run_scenarios(ctx, scenarios))
 
